@@ -160,6 +160,8 @@ def plan(tier, rng, sl, nslices, stats):
             yield gfa.random_dag_case(rng, max_states=rng.choice([3, 4, 5, 6]))
         else:
             yield gfa.random_case(rng, max_states=rng.choice([3, 4, 5, 6]))
+    for i in range(max(4, cfg["random"] // 500)):
+        yield dense_case(rng)
     if cfg.get("exhaustive"):
         for (n, k) in ((1, 1), (1, 2), (2, 1)):
             tot = gfa.exhaustive_count(n, k)
@@ -170,6 +172,18 @@ def plan(tier, rng, sl, nslices, stats):
         tot = gfa.exhaustive_count(2, 2)
         for _ in range(8000):
             yield gfa.exhaustive_nth(2, 2, rng.randrange(tot))
+
+
+def dense_case(rng):
+    """two or three states, all final, several start states, (almost) every transition present: nearly every word
+    is accepted along several runs; enumerated up to a bound where more than 256 words are held"""
+    n = rng.randint(2, 3)
+    trans = [[p, a, q] for p in range(n) for a in range(2) for q in range(n) if rng.random() < 0.8]
+    if rng.random() < 0.5:
+        trans.append([0, gfa.EPSID, n - 1])
+        trans.append([n - 1, gfa.EPSID, 0])
+    return {"kind": "enfa", "n": n, "k": 2, "start": list(range(rng.randint(1, 2))), "final": list(range(n)),
+            "trans": trans, "extra": [], "vc": rng.choice(["int", "str"]), "token": False, "dense": rng.choice([8, 8, 9])}
 
 
 def run_case(c, stats):
@@ -189,7 +203,7 @@ def run_case(c, stats):
         call(fa.is_acyclic)
     with core.oracle_mode():
         pass
-    for n in (0, 1, 2, 3, 4, None):
+    for n in ((c["dense"],) if c.get("dense") else (0, 1, 2, 3, 4, None)):
         if n is not None and n > 3 and len(ref.alpha) > 2:
             continue
         LOGd = core.LOG.depth
